@@ -89,6 +89,9 @@ type Run struct {
 	lastAssertion map[string]string
 	lastJTI       map[string]string
 	assertExp     time.Time
+	entFiredSeen  int
+	keyParts      map[string]string
+	shortSecret   bool
 	branching     []int    // branching factor at each scheduling decision of the concurrent steps
 	schedules     []string // storage-call schedules of the concurrent steps
 	Fault         *faultState
@@ -126,6 +129,9 @@ func (r *Run) taint(g *Grant) {
 }
 
 func (r *Run) sanity(f string, a ...interface{}) {
+	if r.shortSecret {
+		return // a global secret shorter than 32 bytes is refused: nothing can be minted, every request that mints fails
+	}
 	s := fmt.Sprintf("step %d: ", r.Idx) + fmt.Sprintf(f, a...)
 	r.Sanity = append(r.Sanity, s)
 	r.logf("?? SANITY %s", s)
@@ -231,6 +237,8 @@ func Execute(t *testing.T, plan *Plan) *Result {
 			r.Start = time.Now()
 			r.Fault = &faultState{}
 			r.installHooks()
+			PanicIsRequestFailure = func() bool { return r.Ent.Fired["rand-err"]+r.Ent.Fired["rand-short"] > r.entFiredSeen }
+			defer func() { PanicIsRequestFailure = nil }()
 			for _, c := range kk.Clients {
 				r.secret(c.Secret, "client_secret")
 				for _, s := range c.Rotated {
@@ -306,6 +314,12 @@ func (r *Run) step(st Step) {
 			r.Shape = append(r.Shape, fmt.Sprintf("fault2:%s@%d", st.F2.Kind, st.F2.At))
 		}
 		r.Fault.arm(st.F, st.F2)
+		for _, fs := range []*FaultSpec{st.F, st.F2} {
+			if fs != nil && (fs.Kind == "rand-err" || fs.Kind == "rand-short") {
+				r.Ent.FailAt[r.Ent.Draws+fs.At] = fs.Kind[5:]
+			}
+		}
+		r.entFiredSeen = r.Ent.Fired["rand-err"] + r.Ent.Fired["rand-short"]
 		if r.W.Store.Copy {
 			r.tablesBefore = r.W.Store.DumpTables()
 		}
@@ -338,6 +352,9 @@ func (r *Run) step(st Step) {
 	}
 	if st.F != nil {
 		r.Fault.disarm(r)
+		for k := range r.Ent.FailAt {
+			delete(r.Ent.FailAt, k)
+		}
 	}
 }
 
@@ -496,11 +513,13 @@ func (r *Run) recordTokenResponse(res *Resp, g *Grant, gen int, grantKey string,
 			at.ExpiresIn = time.Duration(e) * time.Second
 		}
 		r.secret(v, "access_token")
+		r.checkMinted(v, "at")
 	}
 	if v := res.Str("refresh_token"); v != "" {
 		rt = r.L.AddCred(&Cred{Kind: "rt", Val: v, G: g, Gen: gen, Issued: now, Endpoint: "token", Delivered: true,
 			Life: r.overrideLife(cs, grantKey+":refresh_token", r.W.K.DocRTLife())})
 		r.secret(v, "refresh_token")
+		r.checkMinted(v, "rt")
 		if rt.Life < 0 {
 			// "unlimited" on refresh leaves the session's earlier (finite) expiry in place: whether the new token is
 			// unlimited or inherits that expiry is not pinned down => no positive expectation
